@@ -8,6 +8,8 @@ import RSVerif.Proofs.Sched
 import RSVerif.Proofs.Kernels
 import RSVerif.Proofs.EnginesAgree
 import RSVerif.Proofs.Lanes
+import RSVerif.Proofs.SeqEquiv
+import RSVerif.Proofs.SimdSpec
 
 namespace RS
 open ShardAlg
@@ -69,5 +71,25 @@ theorem engines_agree_objects (lw : Array Nat) (e : Encoder) (d : Decoder) (s' :
     ({ e with sched := s' } : Encoder).encode.1 = e.encode.1 ∧
     (({ d with sched := s' } : Decoder).decode lw).1 = (d.decode lw).1 :=
   ⟨Encoder.encode_sched_indep e s' he, Decoder.decode_sched_indep lw d s' hd⟩
+
+/-- the loop nests of the engines, transliterated statement by statement (in-place, sequential, in
+    source order: Model/EngineSeq.lean), compute exactly the pointwise layer model on which every other
+    theorem is stated — for both schedules, fft and ifft, every position, size, truncated size, offset -/
+theorem loops_eq_model {V : Type} [ShardAlg V] (a : Array V) (pos n trunc delta : Nat)
+    (ht : trunc ≤ 2 ^ n) (h : pos + 2 ^ n ≤ a.size) :
+    naiveFftSeq a pos n trunc delta = fft .naive a pos (2 ^ n) trunc delta ∧
+    naiveIfftSeq a pos n trunc delta = ifft .naive a pos (2 ^ n) trunc delta ∧
+    twoFftSeq a pos n trunc delta = fft .twoLayer a pos (2 ^ n) trunc delta ∧
+    twoIfftSeq a pos n trunc delta = ifft .twoLayer a pos (2 ^ n) trunc delta :=
+  ⟨naiveFftSeq_eq a pos n trunc delta ht h, naiveIfftSeq_eq a pos n trunc delta ht h,
+   twoFftSeq_eq a pos n trunc delta ht h, twoIfftSeq_eq a pos n trunc delta ht h⟩
+
+/-- the SIMD multiply kernel (`mul_128` of engine_ssse3.rs, line by line on 16-byte vectors with the
+    semantics of `pshufb`, `psrlq`, `pand`, `pxor`) multiplies every one of its 16 lanes by `g^m` -/
+theorem simd_kernel_spec (m : Nat) (valueLo valueHi : V128) (i : Fin 16) :
+    symOf (mul128 (fun y => gmul (gexp m) y) valueLo valueHi).1
+          (mul128 (fun y => gmul (gexp m) y) valueLo valueHi).2 i
+      = gmul (gexp m) (symOf valueLo valueHi i) :=
+  mul128_gmul m valueLo valueHi i
 
 end RS
